@@ -17,13 +17,17 @@ def run(ctx):
         "Signal wakes the oldest waiter - the last only matters for the scripted comparison, not for the theorems)",
         "add-only verif accessors (runtime/syncutils/verif_c17_accessors.go) read the sync.Cond ticket counters by reflection",
     ])
-    n = "600" if thorough else "150"
+    n = "600" if thorough else "200"
     for what in ("sm", "dag", "cs"):
         args = ["scripted", "--what", what, "--n", n]
         if thorough:
             args.append("--thorough")
         ctx.corr(hx, args, cases_name="cases_%s.v" % what)
     ctx.corr(hx, ["free", "--n", "25" if thorough else "4"], cases_name="free.v")
+    if thorough:
+        # the same contention runs under the race detector (a reported race makes the harness exit non-zero)
+        hxr = ctx.go_build("c17", race=True)
+        ctx.corr(hxr, ["free", "--n", "6"], cases_name="free_race.v")
     ctx.assumptions += [
         "critical sections under the objects' internal mutexes are atomic; Go memory-model data races are out of scope "
         "(StarvingMutex.String() reads the fields without the mutex: not used)",
